@@ -163,6 +163,7 @@ class World {
         std::ostringstream desc;        // human-readable account of the current step (trace / replay files)
         std::vector<std::string> story; // one line per executed step
         std::set<uint32_t> astates;     // abstract states seen (coverage measure)
+        std::vector<unsigned long> hits_per_step;   // compute-table hits met in each step
         bool tracing = false;
 
         // options
